@@ -184,7 +184,8 @@ func DumpState(c *girc.Client) string {
 	return sb.String()
 }
 
-// StructuralInvariant evaluates C05's consistency statement on the state API. Returns
+// StructuralInvariant evaluates C05's consistency statement on the state API (folding with
+// specFold of c15.go, written from the property's byte table). Returns
 // "" or a description of the first inconsistency.
 func StructuralInvariant(c *girc.Client) string {
 	chans := c.Channels()
@@ -193,10 +194,35 @@ func StructuralInvariant(c *girc.Client) string {
 	chanByKey := map[string]*girc.Channel{}
 	userByKey := map[string]*girc.User{}
 	for _, ch := range chans {
-		chanByKey[girc.ToRFC1459(ch.Name)] = ch
+		chanByKey[specFold(ch.Name)] = ch
 	}
 	for _, u := range users {
-		userByKey[girc.ToRFC1459(u.Nick)] = u
+		userByKey[specFold(u.Nick)] = u
+	}
+	// "case-folded" is judged with the harness's own fold (specFold: the byte table of the
+	// property, A-Z and [ \ ] ^ to a-z and { | } ~), not with the library's ToRFC1459.
+	seenC, seenU := map[string]string{}, map[string]string{}
+	for _, k := range ck {
+		if specFold(k) != k {
+			return "channel key " + strconv.Quote(k) + " is not case-folded"
+		}
+	}
+	for _, k := range uk {
+		if specFold(k) != k {
+			return "user key " + strconv.Quote(k) + " is not case-folded"
+		}
+	}
+	for _, ch := range chans {
+		if prev, dup := seenC[specFold(ch.Name)]; dup {
+			return "channel " + strconv.Quote(ch.Name) + " is tracked twice (also as " + strconv.Quote(prev) + ")"
+		}
+		seenC[specFold(ch.Name)] = ch.Name
+	}
+	for _, u := range users {
+		if prev, dup := seenU[specFold(u.Nick)]; dup {
+			return "user " + strconv.Quote(u.Nick) + " is tracked twice (also as " + strconv.Quote(prev) + ")"
+		}
+		seenU[specFold(u.Nick)] = u.Nick
 	}
 	if len(chanByKey) != len(ck) || len(userByKey) != len(uk) {
 		return "map keys are not the folded names of their records"
@@ -213,7 +239,7 @@ func StructuralInvariant(c *girc.Client) string {
 	}
 	okList := func(l []string) string {
 		for i, x := range l {
-			if girc.ToRFC1459(x) != x {
+			if specFold(x) != x {
 				return "entry " + strconv.Quote(x) + " is not case-folded"
 			}
 			if i > 0 && !(l[i-1] < x) {
@@ -236,7 +262,7 @@ func StructuralInvariant(c *girc.Client) string {
 			if u == nil {
 				return "channel " + ch.Name + " lists unknown user " + strconv.Quote(n)
 			}
-			if !containsStr(u.ChannelList, girc.ToRFC1459(ch.Name)) {
+			if !containsStr(u.ChannelList, specFold(ch.Name)) {
 				return "nick " + n + " is listed in " + ch.Name + " but the channel is not listed for the user"
 			}
 		}
@@ -253,7 +279,7 @@ func StructuralInvariant(c *girc.Client) string {
 			if ch == nil {
 				return "user " + u.Nick + " lists unknown channel " + strconv.Quote(cn)
 			}
-			if !containsStr(ch.UserList, girc.ToRFC1459(u.Nick)) {
+			if !containsStr(ch.UserList, specFold(u.Nick)) {
 				return "channel " + cn + " is listed for " + u.Nick + " but the nick is not listed in the channel"
 			}
 		}
